@@ -50,7 +50,7 @@ def run(ctx):
     idx = 0
     for n in range(1, N + 1):
         for rep in range(reps):
-            for cont in ("list_np", "list_py", "matrix", "ndim_list", "ndim_matrix"):
+            for cont in ("list_np", "list_py", "matrix", "ndim_list", "ndim_matrix", "ndim_list_F"):
                 nd = 0 if not cont.startswith("ndim") else (rep % 3) + 1 + (n % 2)
                 equal = cont in ("matrix", "ndim_matrix") or (n + rep) % 2 == 0
                 crng = __import__("random").Random(1000 * n + 10 * rep + len(cont) + ctx.seed)
@@ -95,6 +95,8 @@ def make_container(np, cont, ss, engine):
         return [np.array(s) for s in ss]
     if cont == "ndim_matrix":
         return np.array(ss)
+    if cont == "ndim_list_F":
+        return [np.asfortranarray(np.array(s, dtype=float)) for s in ss]
     raise ValueError(cont)
 
 
